@@ -103,7 +103,8 @@ V_interp_env(e) ==
     LET aff == [k \in 1..Len(e.q) |-> RAdd(e.b, RMul(e.m, e.q[k]))]
         inside == {k \in 1..Len(e.q) : RLe(e.x[1], e.q[k]) /\ RLe(e.q[k], Last(e.x))}
     IN Fail(e.outcome # "ok" \/ ~SeqOK(e.at_nodes, e.y, 100), "C13.nodes." \o e.method) \cup
-       Fail(e.outcome # "ok" \/ Len(e.out) # Len(e.q) \/ ~AllFinite(e.out), "C13.shape." \o e.method) \cup
+       \* (queries outside the data range extrapolate a cubic: the value may exceed what the projection holds, it is still a real number)
+       Fail(e.outcome # "ok" \/ Len(e.out) # Len(e.q) \/ \E k \in 1..Len(e.out) : ~IsReal(e.out[k]), "C13.shape." \o e.method) \cup
        Fail(e.outcome # "ok" \/ Len(e.aff_out) # Len(e.q)
             \/ \E k \in inside : ~Near(e.aff_out[k], aff[k], 2000), "C13.affine." \o e.method)
 
@@ -111,10 +112,19 @@ V_interp_env(e) ==
 \* value of the Weaver-level interpolation for the two methods the documentation determines (others: environment)
 WInterpVals(e, grid) == IF e.method = "constant" THEN InterpConstantSeq(e.x, e.y, grid, None) ELSE InterpLinearSeq(e.x, e.y, grid)
 ValuesJudged(e) == e.method \in {"linear", "constant"}
+\* A point of the computed grid that coincides with an interior sample in exact arithmetic may lie one ulp below it in binary64
+\* (linspace rounds): for the piecewise-constant method the value of the previous sample is then the right answer for the
+\* grid the code actually built.  Only for grids the code computes itself (mode "n"), never for a grid the caller hands over.
+ConstTieOK(e, grid, k) ==
+    \E j \in 2..Len(e.x) : grid[k] = e.x[j] /\ Near(e.wy[k], e.y[j - 1], Tol)
+WValuesOK(e, grid) ==
+    /\ Len(e.wy) = Len(grid)
+    /\ \A k \in 1..Len(grid) : \/ Near(e.wy[k], WInterpVals(e, grid)[k], Tol)
+                                \/ (e.method = "constant" /\ k > 1 /\ k < Len(grid) /\ ConstTieOK(e, grid, k))
 V_winterp(e) ==
     IF e.mode = "n"
     THEN Fail(e.outcome # "ok" \/ ~SeqOK(e.wx, Linspace(e.x[1], Last(e.x), e.n), Tol) \/ Len(e.wy) # e.n, "C13.weaver_grid") \cup
-         Fail(ValuesJudged(e) /\ (e.outcome # "ok" \/ ~SeqOK(e.wy, WInterpVals(e, Linspace(e.x[1], Last(e.x), e.n)), Tol)), "C13.weaver_" \o e.method) \cup
+         Fail(ValuesJudged(e) /\ (e.outcome # "ok" \/ ~WValuesOK(e, Linspace(e.x[1], Last(e.x), e.n))), "C13.weaver_" \o e.method) \cup
          Fail(e.outcome = "ok" /\ (~AllFinite(e.wy) \/ e.wkind # "ndarray1f"), "C09.kind")
     ELSE IF e.q[1] # e.x[1] \/ Last(e.q) # Last(e.x)
     THEN Fail(e.outcome # "ValueError", "C13.grid_endpoints") \cup Fail(e.outcome # "ValueError", "C20.interp_grid") \cup
